@@ -154,7 +154,10 @@ def shim_job(family, target, cc="g++", extra=()):
         flags += ["-include", caps_header(target)]
     if os.environ.get("XSV_COVERAGE") and cc == "g++":
         # tools/coverage.py: line counts of the xsimd headers as executed by a check (never set by a registered command)
-        flags += ["--coverage", "-fprofile-update=atomic"]
+        # XSIMD_INLINE is always_inline: inlined before the instrumentation pass, such bodies lose their line counts.  The coverage
+        # build therefore pre-defines the macro as plain `inline` (and the include guard of xsimd_inline.hpp) and switches inlining off.
+        flags = [f for f in flags if f != "-O2"] + ["-O1", "-fno-early-inlining", "-fno-inline", "-DXSIMD_INLINE_HPP", "-DXSIMD_INLINE=inline",
+                                                    "--coverage", "-fprofile-update=atomic"]
     key = _key([tree_hash(), _hash_files(deps), " ".join(flags), compiler_id(cc), "shim"])
     d = os.path.join(CACHE, tree_hash())
     out = os.path.join(d, "shim_%s_%s_%s.so" % (family, target, key))
